@@ -21,4 +21,4 @@ def budget(tier):
 
 def generate(run_seed, tier):
     return hist.gen_program("C19", run_seed, tier, odd_toys(), named_small(),
-                            (5, 60), named_frac=0.08)
+                            (5, 60 if tier == "quick" else 120), named_frac=0.08)
